@@ -205,6 +205,18 @@ def fresh_of_type(st, name, ty, inputs=None):
         v = SFunc(target=t[1], name=name)
     elif k == "obj":
         v = SObj(name)
+    elif k == "ds":
+        from .lazy import SDs, SData
+        spec = t[1]
+        variables = {vn: SData(fresh_of_type(st, "%s[%s]" % (name, vn), vt, None), name=vn) for vn, vt in spec.get("vars", {}).items()}
+        coords = {cn: SData(fresh_of_type(st, "%s.coords[%s]" % (name, cn), ct, None), name=cn) for cn, ct in spec.get("coords", {}).items()}
+        attrs = {an: fresh_of_type(st, "%s.attrs[%s]" % (name, an), at, None) for an, at in spec.get("attrs", {}).items()}
+        sizes = {}
+        for dn, ref in spec.get("sizes", {}).items():
+            vn, ax = ref.rsplit(".", 1)
+            src = variables.get(vn) or coords.get(vn)
+            sizes[dn] = src.arr.shape[int(ax)]
+        v = SDs(name, variables, coords, attrs, sizes)
     else:
         raise Unsupported("type " + repr(ty))
     if inputs is not None:
